@@ -115,12 +115,17 @@ def main(run):
     sh, nsh = run.shard
     hrnd = random.Random(run.shard_seed ^ 0xABCDEF)
     mdd = 0.0
-    for j, (k, snaps, rq, rt) in enumerate(GRID):
+    grnd = random.Random(run.seed + 99)          # two extra configurations drawn from VERIF_SEED (same in every shard)
+    grid = list(GRID)
+    for _ in range(2):
+        k = grnd.choice([6, 7, 8, 12, 17, 24, 33])
+        grid.append((k, [k + 1, k + grnd.randrange(2, 9), 3 * k + grnd.randrange(5), 9 * k], 4000, 40000))
+    for j, (k, snaps, rq, rt) in enumerate(grid):
         if j % nsh != sh:
             continue
         runs = rt if thorough else rq
         random.seed(run.shard_seed * 7919 + j)
-        ct = CellTests(plan(k, snaps), eps=EPS / len(GRID))
+        ct = CellTests(plan(k, snaps), eps=EPS / (len(GRID) + 2))
         interference = j % 3 == 1
         if interference:
             runs = runs // 3
